@@ -144,6 +144,7 @@ def run(ctx):
                         scope=lambda q_, b_: q_.rsplit('::', 1)[-1].startswith('insert'))
         _keyremap(ctx, cfg, prog)
         _policykeep(ctx, cfg, prog, ctx.mod(cfg))
+        _orientzero(ctx, cfg, prog)
         import verdict
         verdict.rule(ctx, cfg, prog)
         import twins
@@ -236,6 +237,100 @@ def run(ctx):
 
 
 KEYREMAP_CALL = 'core::delaunay_triangulation::DelaunayTriangulation::maybe_repair_after_insertion'
+
+
+ECO = TR + 'evaluate_cell_orientation_for_context'
+
+
+def _orientzero(ctx, cfg, prog):
+    """ORIENTZERO: the positive-orientation promotion is one of the two orientation steps INSORIENT accepts after a
+    cell-creating insertion, and for Pseudomanifold + OnSuspicion / Never without a flip repair it is the only thing that
+    looks at the new cells' orientation.  It must refuse a flat cell: among the bodies it consists of (depth <= 3) there
+    is, inside a loop over the cells, a test of the orientation sign - the i32 delivered by `evaluate_cell_orientation_for_context` - against 0 by
+    equality whose equal edge reaches no success exit.  A pass that only collects `orientation < 0` commits zero-volume
+    cells (a point exactly on a hull facet or edge)."""
+    ctx.rule('ORIENTZERO', 'the orientation promotion refuses a cell whose orientation predicate is zero')
+    root = prog.bodies.get(NORMALIZE)
+    if root is None:
+        ctx.ob('ANCHOR', 'missing|' + NORMALIZE, cfg, False, 'ORIENTZERO names a function that no longer exists')
+        return
+    seen, work = set(), [(NORMALIZE, 3)]
+    while work:
+        q, d = work.pop()
+        if q in seen or q not in prog.bodies:
+            continue
+        seen.add(q)
+        if d > 0:
+            for _, t in prog.bodies[q].calls():
+                n_ = t.resolved or t.callee or ''
+                if n_.startswith(TR) or n_ in prog.children.get(q, []):
+                    work.append((n_, d - 1))
+            for c_ in prog.children.get(q, []):
+                work.append((c_, d - 1))
+    found = []
+    users = 0
+    for q in sorted(seen):
+        b = prog.bodies[q]
+        signs = set()
+        for bb, t in b.calls():
+            if (t.resolved or t.callee) == ECO and t.dest is not None and t.dest.is_local():
+                users += 1
+                # only an evaluation made for every cell (inside a loop over the cells): the global-sign canonicalisation
+                # looks at one representative cell
+                if bb in flow.reach_edges(b, b.succs(bb)):
+                    signs.add(t.dest.local)
+        if not signs:
+            continue
+        # i32 locals moved out of the Result (through `?`)
+        changed = True
+        while changed:
+            changed = False
+            for blk in b.blocks:
+                for s_ in blk.stmts:
+                    if s_.kind == 'A' and s_.place.is_local() and s_.place.local not in signs and s_.rv.k == 'use' and s_.rv.ops \
+                            and s_.rv.ops[0].place is not None and s_.rv.ops[0].place.local in signs:
+                        signs.add(s_.place.local)
+                        changed = True
+                t = blk.term
+                if t.k == 'call' and t.dest is not None and t.dest.is_local() and t.dest.local not in signs and \
+                        any(o.place is not None and o.place.local in signs for o in t.args) and \
+                        any(k in (t.resolved or t.callee or '') for k in ('Try>::branch', 'FromResidual')):
+                    signs.add(t.dest.local)
+                    changed = True
+        exits = {e['bb'] for e in gate.success_exit_blocks(b)}
+        for blk in b.blocks:
+            if blk.cleanup:
+                continue
+            for s_ in blk.stmts:
+                if s_.kind != 'A' or s_.rv.k != 'bin' or s_.rv.raw.get('op') not in ('Eq', 'Ne') or not s_.place.is_local():
+                    continue
+                a_, b_ = s_.rv.ops
+                isz = lambda o: o.kind == 'k' and o.int_value() == 0
+                iss = lambda o: o.place is not None and o.place.is_local() and b.locals[o.place.local] == 'i32' and o.place.local in signs
+                if not ((iss(a_) and isz(b_)) or (isz(a_) and iss(b_))):
+                    continue
+                t = blk.term
+                if t.k != 'switch' or t.discr.place is None or t.discr.place.local != s_.place.local:
+                    continue
+                listed = {v: tg for v, tg in t.values}
+                tgt_true = t.otherwise if 0 in listed else listed.get(1, t.otherwise)
+                tgt_false = listed.get(0, t.otherwise)
+                zero_edge = tgt_true if s_.rv.raw['op'] == 'Eq' else tgt_false
+                if not (exits & flow.reach_edges(b, [zero_edge])):
+                    found.append((q.rsplit('::', 1)[-1], s_.line))
+            # `match orientation { 0 => Err, .. }`: a switch on the sign itself
+            t = blk.term
+            if t.k == 'switch' and t.discr.place is not None and t.discr.place.is_local() and t.discr.place.local in signs and \
+                    b.locals[t.discr.place.local] == 'i32':
+                listed = {v: tg for v, tg in t.values}
+                if 0 in listed and not (exits & flow.reach_edges(b, [listed[0]])):
+                    found.append((q.rsplit('::', 1)[-1], t.line))
+    ctx.floor('orientation evaluations inside the promotion pass', 1, users, cfg)
+    ctx.ob('ORIENTZERO', NORMALIZE, cfg, bool(found),
+           'zero orientation is refused at %s' % found[:3] if found else
+           'no body of the promotion pass (%d bodies, %d orientation evaluations) refuses a zero orientation: a flat new cell is '
+           'committed when nothing else validates the orientation (Pseudomanifold, OnSuspicion / Never, no flip repair)' % (len(seen), users),
+           site='%s:%d' % (root.file, root.line))
 
 
 def _policykeep(ctx, cfg, prog, mod):
